@@ -25,8 +25,17 @@ namespace Pandora.C16Kernels
 open Pandora Pandora.Dataset Pandora.PyExpr
 
 /-- the generated result type, from the model's: `Window(col_off, row_off, width, height)` as the tuple of its
-    arguments, `none` (the refusal) as `ValueError` -/
+    arguments, `none` (the refusal) as the `ValueError` of the function.  rasterio's `Window` validates its lengths
+    itself (negative width / height: its own `ValueError`, kept apart as `"Window: ValueError"`): the model hands
+    the four numbers over as they are, so that test sits here — it never fires on a well-formed ROI
+    (`getWindow_eq_spec`, `encWindow_spec`) -/
 def encWindow : Option Window → PyOut (Int × Int × Int × Int)
+  | some w => if w.width < 0 ∨ w.height < 0 then .raised "Window: ValueError"
+              else .ok (w.colOff, w.rowOff, w.width, w.height)
+  | none => .raised "ValueError"
+
+/-- the plain encoding: window ↔ `ok`, refusal ↔ `ValueError` -/
+def encWindow' : Option Window → PyOut (Int × Int × Int × Int)
   | some w => .ok (w.colOff, w.rowOff, w.width, w.height)
   | none => .raised "ValueError"
 
@@ -51,8 +60,12 @@ macro "window_eq" : tactic => `(tactic| (
     first
       | rfl
       | (exfalso; omega)
-      | (simp only [encWindow, PyOut.ok.injEq, Prod.mk.injEq]; refine ⟨?_, ?_, ?_, ?_⟩ <;> omega)
-      | (simp_all [encWindow] <;> omega)))
+      | (dsimp only
+         split_ifs <;>
+           first
+             | rfl
+             | (exfalso; omega)
+             | (simp only [PyOut.ok.injEq, Prod.mk.injEq]; refine ⟨?_, ?_, ?_, ?_⟩ <;> omega))))
 
 /-- **the translated `get_window` is the hand model** (non-strict comparisons), for all integers -/
 theorem getWindow_eq_fixed : ∀ (roi : Roi) (width height : Int),
@@ -64,25 +77,40 @@ theorem getWindow_eq_source : ∀ (roi : Roi) (width height : Int),
     pyGetWindow roi width height = encWindow (Dataset.getWindow Generated.imgToolsParams roi width height) := by
   window_eq
 
-/-- refusal ↔ `none`, window ↔ `some` (the encoding loses nothing) -/
-theorem encWindow_injective (a b : Option Window) (h : encWindow a = encWindow b) : a = b := by
-  cases a <;> cases b <;> simp [encWindow] at h ⊢
-  rename_i x y; cases x; cases y; simp_all
-
+/-- the function's own `ValueError` ("Roi specified is outside the image") ↔ the model's refusal `none` -/
 theorem getWindow_raises_iff (roi : Roi) (width height : Int) :
     pyGetWindow roi width height = .raised "ValueError" ↔ Dataset.getWindow Params.fixed roi width height = none := by
   rw [getWindow_eq_fixed]
-  cases Dataset.getWindow Params.fixed roi width height <;> simp [encWindow]
+  cases h : Dataset.getWindow Params.fixed roi width height with
+  | none => simp [encWindow]
+  | some w => simp only [encWindow]; split_ifs <;> simp
+
+/-- a window of the specification has positive lengths: on it the two encodings coincide -/
+theorem encWindow_spec (roi : Roi) (width height : Int) :
+    encWindow (windowSpec roi width height) = encWindow' (windowSpec roi width height) := by
+  unfold windowSpec clipAxis
+  split
+  · rename_i c0 c1 r0 r1 hc hr
+    simp only at hc hr
+    split_ifs at hc hr
+    simp only [Option.some.injEq, Prod.mk.injEq] at hc hr
+    obtain ⟨rfl, rfl⟩ := hc
+    obtain ⟨rfl, rfl⟩ := hr
+    simp only [encWindow, encWindow']
+    rw [if_neg (by omega)]
+  · rfl
 
 /-- **the translated `get_window` is the specification**: the ROI enlarged by its margins, clipped to the image;
     `ValueError` exactly when it does not meet the image (hypotheses: those of `C16.getWindow_eq_spec`) -/
 theorem getWindow_eq_spec (roi : Roi) (width height : Int)
     (hwf : roi.wf = true) (hw : 0 < width) (hh : 0 < height) :
-    pyGetWindow roi width height = encWindow (windowSpec roi width height) := by
-  rw [getWindow_eq_fixed, Pandora.C16.fixed_getWindow roi width height hwf hw hh]
+    pyGetWindow roi width height = encWindow' (windowSpec roi width height) := by
+  rw [getWindow_eq_fixed, Pandora.C16.fixed_getWindow roi width height hwf hw hh, encWindow_spec]
 
 /-- non-vacuity: a ROI clipped on two sides, and one refused -/
 example : pyGetWindow ⟨4, 9, -1, 2, 1, 0, 0, 1⟩ 6 5 = .ok (3, 0, 3, 4) := by decide
 example : pyGetWindow ⟨6, 7, 1, 2, 0, 0, 0, 0⟩ 6 5 = .raised "ValueError" := by decide
+/-- an ill-formed ROI (last row before the first one) reaches rasterio's own validation -/
+example : pyGetWindow ⟨1, 2, 3, 0, 0, 0, 0, 0⟩ 6 5 = .raised "Window: ValueError" := by decide
 
 end Pandora.C16Kernels
